@@ -1,5 +1,8 @@
-HOOK_COMMITS = ["03b20ac"]
+HOOK_COMMITS = ["03b20ac", "2e32ea2"]
 CHECKS = {
+ "C07": ("Theorems for every text, every list of chunks whose cuts respect CRLF (any number, any positions, inside lines / code points / blank runs), every worker count >= 1 and every arrival permutation: "
+         "the chunks concatenate to the text, the real chunker never cuts inside CRLF, merging the per-batch results yields exactly the serial block list, and the collected results do not depend on arrival order. "
+         "Model<->code: chunking and merged block structure for every worker count 1..len+2 per text; the property itself (parallel == serial: records, blocks, line numbers, errors) is checked on the real parsers with forced arrival orders (hook H3).", "DESIGN.md §6 C07"),
  "C08": ("Theorems for every byte string: lines and blocks reproduce the text byte for byte, block shape (blank*, significant+, blank*; leading blanks only in the first block), consecutive line numbers, no blocks iff all blank. "
          "Model<->code: exhaustive byte strings up to length 6/7 over {a,space,tab,CR,LF,0xff} plus generated documents, layouts and raw bytes; the property is also evaluated on the code's own blocks and on a no-op reconcile.", "DESIGN.md §6 C08"),
 }
